@@ -33,10 +33,18 @@ func run(c *hlib.Ctx) {
 	w := map[string]int{"load": 20, "delete": 12, "delwhere": 5, "compact": 10, "branch": 9, "merge": 26, "revert": 16, "badid": 2}
 	guarded := lakeh.Profile{Name: "c15-guarded", W: w, MaxOps: 16, Guarded: true, Plain: true}
 	open := lakeh.Profile{Name: "c15-open", W: w, MaxOps: 12, Plain: true}
-	lakeh.RunWitnesses(c, "C15", lakeh.Options{Prop: "C15", StopOnFail: true})
+	if c.Want("witness") {
+		lakeh.RunWitnesses(c, "C15", lakeh.Options{Prop: "C15", StopOnFail: true})
+	}
+	if c.Want("races") && c.Replay == nil {
+		lakeh.RunRaces(c, 80)
+	}
 	if c.Want("exhaustive") {
 		lakeh.RunExhaustive(c, lakeh.Options{Prop: "C15", StopOnFail: true}, []string{"La", "Lb", "B"},
 			[]string{"Lc", "La", "D1", "Dc", "C", "M", "Mr", "R"}, c.N(2, 3))
+	}
+	if !c.Want("histories") {
+		return
 	}
 	lakeh.RunPlan(c, lakeh.Plan{
 		Opt:      lakeh.Options{Prop: "C15", StopOnFail: true, ColdOps: true, PruneSnaps: true},
